@@ -60,9 +60,17 @@ def main():
                 json.dump(meta, open(os.path.join(d, "meta.json"), "w"), indent=1)
             finally:
                 shutil.rmtree(tmp, ignore_errors=True)
-        bad = [r for r in results if r[2] != 1]
-        print("seeded: %d runs, %d not caught" % (len(results), len(bad)))
-        return 1 if bad else 0
+        # a seeded change counts as caught when at least one of the checks listed for it exits 1 (the property's own check is
+        # listed first; the others are checks of neighbouring properties that were tried as well)
+        by_seed = {}
+        for sid, prop, rc, dt, mechs in results:
+            by_seed.setdefault(sid, []).append(rc)
+        bad = [sid for sid, rcs in by_seed.items() if 1 not in rcs]
+        odd = [r for r in results if r[2] not in (0, 1)]
+        print("seeded: %d changes, %d runs, %d changes not caught by any listed check%s" % (len(by_seed), len(results), len(bad), (", %d runs neither 0 nor 1" % len(odd)) if odd else ""))
+        for sid in bad:
+            print("  NOT CAUGHT:", sid)
+        return 1 if bad or odd else 0
     muts = json.load(open(os.path.join(VERIF, "selftest", "mutants.json")))
     for m in muts:
         if args and not any(a in m["name"] for a in args):
